@@ -244,7 +244,9 @@ def run_case(case, tier):
             if len(viol) > 40:
                 break
         if w == 1:
-            for s in ("", " ", "     ", "\t", "-", " - ", "\uff11\uff12", "\u0661\u0662\u0663", "1\t2", "1 2", "+12", "1_2", "1e2", "0x1f", "1.0"):
+            for s in ("", " ", "     ", "\t", "-", " - ", "\uff11\uff12", "\u0661\u0662\u0663", "1\t2", "1 2", "+12", "1_2", "1e2", "0x1f", "1.0",
+                      # letter-led fields holding decimal digits that are not ASCII (full-width, Arabic-Indic, Devanagari)
+                      "A000\uff11", "A\u0660\u0660\u0660\u0660", "z\u096dzzz", "a\uff10", "B\u0661", "Ab\uff12", "A\u00b2", "a\u2460"):
                 _check_malformed(decode, s, viol, counts)
         sample = {"kind": kind, "w": w, "first": first}
     elif kind == "mal_rand":
@@ -303,7 +305,7 @@ def run_serial_case(case, viol, counts):
         # nucleotides, ligand fragments and ions next to the protein: every kind of group label the report has
         from .. import fragments
         for k_ in range(rng.choice((1, 2))):
-            fname = rng.choice(sorted(f for f in fragments.FRAGMENTS) + ["dna:DA", "dna:DC", "dna:DG", "dna:DT"] * 3 + ["ion:ZN", "ion:CL"])
+            fname = rng.choice(sorted(f for f in fragments.FRAGMENTS) + ["dna:DA", "dna:DC", "dna:DG", "dna:DT"] * 3 + ["ion:ZN", "ion:CL"] + ["sulfate"] * 6)
             frag, _e, _d = fragments.place_near(recs, fname, rng, dist_A=rng.choice((3.0, 4.0, 6.0)), resnum=900 + k_,
                                                 chain=rng.choice(("L", "N")))
             if frag:
